@@ -1,5 +1,6 @@
 import SnaxVerif.Drv.Basic
 import SnaxVerif.Model.CyclicLayout
+import SnaxVerif.Model.CyclicLayoutMaps
 namespace SnaxVerif.Drv.C09
 open Lean SnaxVerif SnaxVerif.Drv SnaxVerif.CyclicLayout
 
@@ -59,7 +60,25 @@ def ensureH : Handler := fun j => do
   | .error e => return Json.mkObj [("raised", Json.str (errName e))]
   | .ok r => return jNat r
 
+def operandMOfJson (j : Json) : Except String OperandM := do
+  return { shape := ← listOf nat (← field j "shape"),
+           elBits := ← optOf nat (← field j "elBits"),
+           hasTsl := ← bool (← field j "hasTsl"),
+           ndims := ← nat (← field j "ndims"),
+           exprs := ← listOf aexprOfJson (← field j "exprs") }
+
+/-- like `rewrite`, but every operand carries its affine map (`exprs`) instead of the matrix -/
+def rewriteMaps : Handler := fun j => do
+  let fixed ← bool (← field j "fixed")
+  let tiled ← bool (← field j "tiled")
+  let spatial ← optOf nat (← field j "spatial")
+  let bounds ← listOf int (← field j "bounds")
+  let ops ← listOf operandMOfJson (← field j "ops")
+  match rewriteOpMaps fixed tiled spatial bounds ops with
+  | .error e => return Json.mkObj [("raised", Json.str (errName e))]
+  | .ok r => return Json.mkObj [("layouts", jOpt (jList layoutToJson) r)]
+
 def handlers : List (String × Handler) :=
-  [("c09.rewrite", rewrite), ("c09.addr", addrPts), ("c09.canon", canonH), ("c09.ensure", ensureH)]
+  [("c09.rewrite", rewrite), ("c09.rewritemaps", rewriteMaps), ("c09.addr", addrPts), ("c09.canon", canonH), ("c09.ensure", ensureH)]
 
 end SnaxVerif.Drv.C09
